@@ -569,6 +569,7 @@ def stage_closest(ctx: Ctx, cs: Cases):
     for o, diag, shape in grids:
         d = len(shape)
         g = UniformGrid(np.array(o, float), np.diag(np.array(diag, float)), np.array(shape), weight="Rectangle")
+        pbuf = np.zeros(d)
         for q in range(12 if ctx.quick else 60):
             # inside the box extended by (almost) half a spacing (anywhere up to three spacings outside when the full theorem
             # is proved of the generated code); every fourth query exactly on a tie or on a node
@@ -594,7 +595,8 @@ def stage_closest(ctx: Ctx, cs: Cases):
             ctx.count(f"closest_point_{d}d")
             rep = f"UniformGrid(np.array({list(map(float, o))}), np.diag({list(map(float, diag))}), np.array({list(shape)})).closest_point(np.array({p}))"
             try:
-                r = g.closest_point(np.array(p), "closest")
+                pbuf[:] = p  # one query buffer per grid, refilled in place: the answer may depend on its current content only
+                r = g.closest_point(pbuf, "closest")
             except Exception as e:
                 ctx.fail(f"closest_is_nearest{d}_partial", key, type(e).__name__, f"{rep} raises {type(e).__name__}: {e}", {"reproduce": rep})
                 continue
@@ -948,6 +950,60 @@ def stage_interp(ctx: Ctx):
                     ctx.fail("log_variant_chain_rule_partial", f"{key}:log:{nu}", err, f"{kind}: log-variant interpolation (nu={nu}) of exp(tricubic) is off by relative {err:.3g}",
                              {"coef": lc.tolist(), "points": pts.tolist(), "got": got.tolist(), "want": wants[k].tolist()})
                     break
+        # ---- call histories on ONE grid object: the answer of a call may depend only on its arguments' current content, not on
+        #      earlier calls - the same value / point buffers are refilled and rescaled in place between calls, derivative orders,
+        #      methods and the log variant are interleaved; every call is judged against the exact polynomial
+        coef2 = np.array([[[ctx.rng.randint(-3, 3) for _ in range(4)] for _ in range(4)] for _ in range(4)], float)
+        vals2 = Pn.polyval3d(P[:, 0], P[:, 1], P[:, 2], coef2)
+        pts2 = np.array([[ctx.rng.uniform(nodes[a][1], nodes[a][shape[a] - 3]) for a in range(3)] for _ in range(2)])
+        hmin = min(np.min(np.diff(x)) for x in nodes)
+        buf, pbuf, history = vals.copy(), pts.copy(), []
+
+        def call(what, cf, nu, factor=1.0, **kw):
+            """One step of the history; returns False (after reporting) when the call is wrong."""
+            history.append(what)
+            try:
+                got = np.asarray(g.interpolate(pbuf, buf, nu_x=nu[0], nu_y=nu[1], nu_z=nu[2], **kw), float)
+            except Exception as e:
+                ctx.fail("interpolation_sweep", f"{key}:history:{len(history)}", type(e).__name__,
+                         f"{kind}: after the calls {history[:-1]} the call {what} raises {type(e).__name__}: {e}", {"history": list(history), "coef": cf.tolist()})
+                return False
+            if kw.get("use_log"):
+                lw = Pn.polyval3d(pbuf[:, 0], pbuf[:, 1], pbuf[:, 2], cf)
+                want = np.exp(lw) * (Pn.polyval3d(pbuf[:, 0], pbuf[:, 1], pbuf[:, 2], pder(cf, nu)) if sum(nu) else 1.0)
+                tol = 1e-8 * (1 + np.abs(want).max())
+            else:
+                want = factor * Pn.polyval3d(pbuf[:, 0], pbuf[:, 1], pbuf[:, 2], pder(cf, nu))
+                tol = 1e-9 * abs(factor) * (1.0 + np.abs(cf).sum() * max(1.0, np.abs(pbuf).max()) ** 9 / hmin ** sum(nu))
+            if got.shape != want.shape or not np.max(np.abs(got - want)) <= tol:
+                ctx.fail("tricubic_reproduced" if not kw else "interpolation_sweep", f"{key}:history:{len(history)}", float(np.max(np.abs(got - want))),
+                         f"{kind}: call history on one grid object {history}: the last call returns {got.tolist()}, the function stored in the array now has {want.tolist()}",
+                         {"history": list(history), "coef_first": coef.tolist(), "coef_second": coef2.tolist(), "points": pbuf.tolist(),
+                          "reproduce": "v = f1(grid.points); grid.interpolate(pts, v); v[:] = f2(grid.points); grid.interpolate(pts, v)  # same array object, new content"})
+                return False
+            return True
+
+        ok = call("interpolate(pts, v) with v = p1(points)", coef, (0, 0, 0))
+        buf[:] = vals2
+        ok = ok and call("v[:] = p2(points); interpolate(pts, v)", coef2, (0, 0, 0))
+        ok = ok and call("interpolate(pts, v, nu_x=1, nu_z=1)", coef2, (1, 0, 1))
+        buf *= -2.0
+        ok = ok and call("v *= -2; interpolate(pts, v, nu_y=1)", coef2, (0, 1, 0), factor=-2.0)
+        pbuf[:] = pts2
+        ok = ok and call("pts[:] = other points; interpolate(pts, v)", coef2, (0, 0, 0), factor=-2.0)
+        buf[:] = vals
+        ok = ok and call("v[:] = p1(points); interpolate(pts, v, nu_z=2)", coef, (0, 0, 2))
+        buf[:] = np.exp(Pn.polyval3d(P[:, 0], P[:, 1], P[:, 2], coef / 64.0))
+        ok = ok and call("v[:] = exp(p1/64)(points); interpolate(pts, v, use_log=True)", coef / 64.0, (0, 0, 0), use_log=True)
+        buf[:] = np.exp(Pn.polyval3d(P[:, 0], P[:, 1], P[:, 2], coef2 / 64.0))
+        ok = ok and call("v[:] = exp(p2/64)(points); interpolate(pts, v, use_log=True, nu_x=1)", coef2 / 64.0, (1, 0, 0), use_log=True)
+        buf[:] = Pn.polyval3d(P[:, 0], P[:, 1], P[:, 2], coef[:2, :2, :2])
+        ok = ok and call("v[:] = trilinear t1(points); interpolate(pts, v, method='linear')", coef[:2, :2, :2], (0, 0, 0), method="linear")
+        buf[:] = Pn.polyval3d(P[:, 0], P[:, 1], P[:, 2], coef2[:2, :2, :2])
+        ok = ok and call("v[:] = trilinear t2(points); interpolate(pts, v, method='linear')", coef2[:2, :2, :2], (0, 0, 0), method="linear")
+        buf[:] = vals2
+        ok = ok and call("v[:] = p2(points); interpolate(pts, v, nu_y=2)", coef2, (0, 2, 0))
+        ctx.count("interpolation_histories")
         # linear method reproduces trilinear functions anywhere inside the grid
         tl = coef[:2, :2, :2]
         tv = Pn.polyval3d(P[:, 0], P[:, 1], P[:, 2], tl)
@@ -1039,8 +1095,11 @@ def run(ctx: Ctx):
             cands.append((key, observed, text, replay))
             if tie_err is not None and len(cands) == 1:
                 return  # becomes the replay of the broken-tie violation (reported once, below)
+        if ctx.is_known(key, observed):  # a listed known finding never uses up the quota of new failures of its obligation
+            orig_fail(obligation, key, observed, text, replay, found_input)
+            return
         counts[obligation] = counts.get(obligation, 0) + 1
-        if counts[obligation] <= 3 or key in KNOWN_KEYS:
+        if counts[obligation] <= 3:
             orig_fail(obligation, key, observed, text, replay, found_input)
     ctx.fail = limited_fail
 
